@@ -99,6 +99,10 @@ class Runner:
 
     def impl(self, lines, profile=None, **kw):
         self.n_impl += len(lines)
+        dump = os.environ.get("VERIF_DUMP_CASES")        # development aid: record every case sent to the implementation (tools/coverage.py)
+        if dump and not kw.get("threads"):
+            with open(dump, "a", encoding="utf-8") as f:
+                f.write("\n".join(lines) + "\n")
         kw.setdefault("base_timeout", self.base_timeout)
         return jl.run_impl(lines, self.bins[profile or self.main], **kw)
 
@@ -434,6 +438,7 @@ def explore(pid, tier, seed, ex):
         both(lines, {"C07"}, "str_to_number")
     elif pid == "C08":
         both(streams.s_pairs(["===", "!=="], ["strict_eq", "strict_ne"], tier, g), {"C08"}, "pairs")
+        both(["strict_eq_same " + enc(v) for v in gen.CORPUS], {"C08"}, "same-instance")
         # whenever === holds, == holds too (implementation alone, through apply and through the helpers)
         vals = [v for v in gen.CORPUS]
         imp = []
